@@ -8,6 +8,7 @@ import (
 	"maps"
 	"slices"
 	"strings"
+	"time"
 
 	"github.com/honeycombio/refinery/config"
 	jsoniter "github.com/json-iterator/go"
@@ -909,6 +910,13 @@ func (p Payload) MarshalMsg(buf []byte) ([]byte, error) {
 		}
 
 		buf = msgp.AppendString(buf, key)
+		// Times keep the standard msgpack timestamp extension they arrived
+		// with; AppendIntf would use AppendTime and its library-specific one.
+		if t, ok := value.(time.Time); ok {
+			buf = msgp.AppendTimeExt(buf, t)
+			actualCount++
+			continue
+		}
 		var err error
 		buf, err = msgp.AppendIntf(buf, value)
 		if err != nil {
